@@ -2,7 +2,7 @@
 From Coq Require Import NArith ZArith List Lia.
 Require Import Rapid.Model.Base Rapid.Model.Syntax Rapid.Model.Monad Rapid.Model.Prim Rapid.Model.Corr Rapid.Model.Witness.
 Require Import Rapid.Generated.GeomTable.
-Require Import Rapid.Proofs.Reach.
+Require Import Rapid.Proofs.Reach Rapid.Proofs.Jsf.
 Import ListNotations.
 Local Open Scope N_scope.
 
@@ -60,6 +60,17 @@ Theorem C18_seeds_distinct :
   forall seed i j, i < 2 ^ 64 -> j < 2 ^ 64 -> i <> j -> wrapN (seed + i) <> wrapN (seed + j).
 Proof. exact seeds_distinct. Qed.
 Print Assumptions C18_seeds_distinct.
+
+(* ... and so are the PRNG states the test cases start from: one jsf64 round is injective on 64-bit states, hence
+   different seeds give different generator states *)
+Theorem C18_case_states_distinct :
+  forall seed i j, i < 2 ^ 64 -> j < 2 ^ 64 -> i <> j -> jsf_init (wrapN (seed + i)) <> jsf_init (wrapN (seed + j)).
+Proof. exact case_states_distinct. Qed.
+Print Assumptions C18_case_states_distinct.
+Theorem C18_jsf_init_injective :
+  forall s1 s2, s1 < 2 ^ 64 -> s2 < 2 ^ 64 -> jsf_init s1 = jsf_init s2 -> s1 = s2.
+Proof. exact jsf_init_injective. Qed.
+Print Assumptions C18_jsf_init_injective.
 
 (* non-vacuity: a value of the former dead band of Uint64 (top bit set, not the maximum) *)
 Example C18_dead_band_value :
